@@ -8,6 +8,10 @@ from ..common import C, Nat, run_coq_eval, server_map, txt, untxt
 IMPORTS = ["Base.Prelude", "Model.Text", "Model.Obs"]
 
 
+BLOCK_TEXTS = ["abc\nabd\n", "ab cd ef\nab cd\n", "one two three\nfour five six\nseven eight nine\n", "a\nbcd\nef\nghij\n", "long line here\nx\nlong again ok\n",
+               "ab\n\ncd ef\n", "foo bar\nbaz qux\nquux\n", "x y z\n", "1234567\n12345\n123\n1\n"]
+
+
 def parse_sel(st):
     """select_mode/select_range debug strings -> (mode index, model range) or None"""
     m, r = st.get("select_mode"), st.get("select_range")
@@ -128,7 +132,47 @@ def run(chk, binary):
         # ---- motions, selections and yanks leave the text unchanged ----
         if is_nonedit and st["buf"] != before["buf"]:
             chk.violation("spec:a command made only of motions/selections/yanks changed the text", dict(case, buffer_before=before["buf"]))
-    chk.cov["traces_validated_against_impl"] = len(cases)
+    # ---- block selections made by <c-v> and plain motions: the field is the rectangle between where <c-v> was pressed and
+    # the cursor, worked out here from the two positions alone (not from the windows the editor reports) ----
+    breqs, bmeta = [], []
+    for _ in range(4000 if thorough else 500):
+        text = rng.choice(BLOCK_TEXTS)
+        if rng.random() < 0.5 and text.endswith("\n"):
+            text = text[:-1]
+        cmd = "<c-v>" + "".join(rng.choice(["j", "j", "k", "l", "l", "h", "w", "b", "e", "2j", "2l", "3l", "G", "gg", "}", "{", "W", "0"]) for _ in range(rng.randint(1, 3)))
+        ok = [i for i, ch in enumerate(text) if ch != "\n"]
+        start = rng.choice(ok)
+        breqs.append({"op": "keys", "text": text, "cursor": start, "keys": [cmd], "pre_snm": True})
+        bmeta.append((text, cmd, start))
+    bans = server_map(binary, breqs)
+    for (text, cmd, start), a in zip(bmeta, bans):
+        steps = a.get("steps", [])
+        if len(steps) != 1 or "panic" in steps[-1] or "pre_snm" not in steps[-1]:
+            continue
+        st = steps[-1]["pre_snm"]
+        field = steps[-1]["field"].get("ok")
+        if field is None or st["buf"] != text or not (st.get("select_mode") or "").startswith("Block"):
+            continue
+        tr = steps[-1].get("cmds", [])
+        if not all(c.get("done") and c.get("motion") and not c["motion"].startswith("Null") for c in tr[1:]):
+            continue
+        dist["block_rectangles"] = dist.get("block_rectangles", 0) + 1
+        chk.count(("c01-block", text, cmd, start), nontrivial=True)
+        c1 = min(st["cursor"], len(text) - 1)
+        def pos(i):
+            ls = text.rfind("\n", 0, i) + 1
+            return text.count("\n", 0, i), i - ls
+        (l0, k0), (l1, k1) = pos(start), pos(c1)
+        lines = text.split("\n")
+        if text.endswith("\n"):
+            lines = lines[:-1]
+        rows = [ln[min(k0, k1):max(k0, k1) + 1] for ln in lines[min(l0, l1):max(l0, l1) + 1]]
+        exp = "\n".join(rows)                 # a line that does not reach the rectangle gives an empty row
+        if field != exp:
+            chk.violation("spec:a block selection made by <c-v> and motions is not the rectangle between where it began and the cursor",
+                          {"text": text, "cmd": cmd, "cursor_before": start, "cursor_after": c1, "field": field, "expected": exp,
+                           "selection": [st.get("select_mode"), st.get("select_range")]})
+    chk.cov["traces_validated_against_impl"] = len(cases) + len(breqs)
     chk.cov["input_distribution"] = dist
     if cmeta:
         t = cmeta[0]
